@@ -234,7 +234,7 @@ func cmdCheck(args []string) int {
 	verbose := fs.Bool("v", false, "verbose")
 	only := fs.String("only", "", "substring filter on harness names")
 	noEvidence := fs.Bool("no-evidence", false, "do not write the evidence file")
-	fs.Parse(args)
+	fs.Parse(reorderArgs(args, map[string]bool{"tier": true, "workers": true, "only": true}))
 	if fs.NArg() < 1 {
 		fmt.Fprintln(os.Stderr, "usage: gosmt check [--tier quick|thorough] <ID>")
 		return 2
@@ -477,6 +477,30 @@ func cmdCheck(args []string) int {
 	}
 	fmt.Printf("OK property=%s\n", id)
 	return 0
+}
+
+// reorderArgs moves positional arguments behind the flags so that
+// `check C05 --tier thorough` and `check --tier thorough C05` are the same.
+func reorderArgs(args []string, takesValue map[string]bool) []string {
+	var flags, pos []string
+	for i := 0; i < len(args); i++ {
+		a := args[i]
+		if a == "--" {
+			pos = append(pos, args[i+1:]...)
+			break
+		}
+		if strings.HasPrefix(a, "-") && a != "-" {
+			flags = append(flags, a)
+			name := strings.TrimLeft(a, "-")
+			if !strings.Contains(name, "=") && takesValue[name] && i+1 < len(args) {
+				i++
+				flags = append(flags, args[i])
+			}
+			continue
+		}
+		pos = append(pos, a)
+	}
+	return append(flags, pos...)
 }
 
 func flagSet(fs *flag.FlagSet, name string) bool {
